@@ -31,10 +31,16 @@ pub enum Outcome<T> {
 }
 
 pub fn synthetic_data(w: &DpWorld) -> SyntheticData {
+    synthetic_data_for(w, &w.cat.tables.iter().map(|t| t.name.clone()).collect::<Vec<_>>())
+}
+
+/// Synthetic replacements declared for some of the tables only
+pub fn synthetic_data_for(w: &DpWorld, tables: &[String]) -> SyntheticData {
     SyntheticData::new(
         w.cat
             .tables
             .iter()
+            .filter(|t| tables.contains(&t.name))
             .map(|t| (vec![t.name.clone()], Identifier::from(format!("{}_sd", t.name))))
             .collect::<Hierarchy<Identifier>>(),
     )
@@ -214,6 +220,54 @@ fn tau_of(e: &Expr) -> Option<f64> {
         }
         _ => None,
     }
+}
+
+/// Clipping constants found in the IR: every projection built around `1 / greatest(1, norm / C)`
+/// (the division is rendered as a guarded CASE) in a scale-factor map gives the C the per-unit
+/// contribution to one aggregate column is clipped to. Returns (node, field, C).
+pub fn clip_constants(rel: &Relation) -> Vec<(String, String, f64)> {
+    fn first_div_const(e: &Expr) -> Option<f64> {
+        if let Expr::Function(f) = e {
+            let a = f.arguments();
+            if f.function() == F::Divide && a.len() == 2 {
+                if let Expr::Value(v) = &a[1] {
+                    return as_f64(v);
+                }
+            }
+            return a.iter().find_map(first_div_const);
+        }
+        None
+    }
+    fn clip_of(e: &Expr) -> Option<f64> {
+        if let Expr::Function(f) = e {
+            let a = f.arguments();
+            if f.function() == F::Greatest && a.len() == 2 && matches!(&a[0], Expr::Value(v) if as_f64(v) == Some(1.0)) {
+                if let Some(c) = first_div_const(&a[1]) {
+                    return Some(c);
+                }
+            }
+            return a.iter().find_map(clip_of);
+        }
+        None
+    }
+    let mut seen = HashMap::new();
+    walk(rel, &mut seen);
+    let mut out = vec![];
+    let mut names: Vec<&String> = seen.keys().collect();
+    names.sort();
+    for name in names {
+        if let Relation::Map(m) = seen[name] {
+            for (f, e) in m.field_exprs() {
+                if contains_random(e) {
+                    continue;
+                }
+                if let Some(c) = clip_of(e) {
+                    out.push((name.clone(), f.name().to_string(), c));
+                }
+            }
+        }
+    }
+    out
 }
 
 pub fn walk<'a>(rel: &'a Relation, seen: &mut HashMap<String, &'a Relation>) {
